@@ -21,18 +21,21 @@ ValSmall(t) == ((t[1] * 256 + t[2]) * 256 + t[3]) * 256 + t[4]   \* caller guara
 \* bit i (0 = least significant) of a big-endian byte tuple of n bytes
 BitOf(t, i) == (t[Len(t) - (i \div 8)] \div (2 ^ (i % 8))) % 2
 
+\* iterative flatten (SequencesExt!FlattenSeq is a depth-n recursive function)
+Flat(ss) == FoldLeft(LAMBDA acc, x : acc \o x, <<>>, ss)
+
 Sub(s, a, b) == IF a > b THEN <<>> ELSE SubSeq(s, a, b)      \* total SubSeq
 Drop(s, n) == Sub(s, n + 1, Len(s))
 Take(s, n) == Sub(s, 1, IF n < Len(s) THEN n ELSE Len(s))
 
 \* BCD: each byte gives two nibbles
-Nibbles(s) == FlattenSeq([i \in 1..Len(s) |-> <<s[i] \div 16, s[i] % 16>>])
+Nibbles(s) == Flat([i \in 1..Len(s) |-> <<s[i] \div 16, s[i] % 16>>])
 RECURSIVE StripLead(_)
 StripLead(d) == IF Len(d) > 0 /\ d[1] = 0 THEN StripLead(Tail(d)) ELSE d
 \* Bcd2Dec: leading zero digits removed; an all-zero field is kept whole
 PhoneDigits(bcd) == LET n == Nibbles(bcd) s == StripLead(n) IN IF s = <<>> THEN n ELSE s
 
-Concat(ss) == FlattenSeq(ss)
+Concat(ss) == Flat(ss)
 
 \* first position >= i holding byte b, 0 when absent
 IndexFrom(s, b, i) == IF i > Len(s) THEN 0 ELSE SelectInSubSeq(s, i, Len(s), LAMBDA x : x = b)
